@@ -52,6 +52,18 @@ ARemove(d, u, r) ==
   /\ "remove" \in Acts
   /\ CanRemove(obj, d, u, r) /\ Removable(obj, d, u, r)
   /\ Step([a |-> "remove", d |-> d, u |-> u, r |-> r], RemoveDirForced(obj, d, u, r))
+\* operations.remove_knot with several directions in one call: u, then v, then w (each step must be exactly removable)
+RECURSIVE RemoveKnotFrom(_, _, _, _)
+RemoveKnotFrom(s, prm, num, d) ==     \* [ok |-> all selected directions removable in sequence, sh |-> result]
+  IF d > PDim(s) THEN [ok |-> TRUE, sh |-> s]
+  ELSE IF prm[d] = None \/ num[d] = 0 THEN RemoveKnotFrom(s, prm, num, d + 1)
+  ELSE IF ~(CanRemove(s, d, prm[d], num[d]) /\ Removable(s, d, prm[d], num[d])) THEN [ok |-> FALSE, sh |-> s]
+  ELSE RemoveKnotFrom(RemoveDirForced(s, d, prm[d], num[d]), prm, num, d + 1)
+ARemoveMulti(prm, num) ==
+  /\ "remove" \in Acts
+  /\ LET r == RemoveKnotFrom(obj, prm, num, 1) IN
+     /\ r.ok
+     /\ Step([a |-> "remove_multi", prm |-> prm, num |-> num], r.sh)
 ARefine(dens) ==
   /\ "refine" \in Acts
   /\ Step([a |-> "refine", dens |-> dens], Refine(obj, dens))
